@@ -61,6 +61,8 @@ use crate::wide::u32x8;
 
 mod blitter;
 #[rustfmt::skip] mod highp;
+#[cfg(tiny_skia_verif)]
+pub(crate) use highp::verif_gather_ix;
 #[rustfmt::skip] mod lowp;
 
 const MAX_STAGES: usize = 32; // More than enough.
